@@ -333,3 +333,119 @@ def cache_wrapper_obligation(prog, enums, structs):
                                    counterexample=dict(acl_verdict=None, qclass=m.eval(qc, model_completion=True).as_long(), do=str(m.eval(do, model_completion=True)),
                                                        cd=str(m.eval(cd, model_completion=True)), hit=bool(env.get("hit")))))
     return failed, ex, len(paths), kinds
+
+
+def outquery_obligation(prog, enums, structs):
+    """the query sent upstream (dns/outquery.rs create_outquery): the client's question under the chosen id, as a recursive query"""
+    fns = [f for f in prog.find("create_outquery", 2) if "{closure" not in f.name]
+    if len(fns) != 1:
+        raise Unsupported("create_outquery not found uniquely in the MIR dump")
+    summ = dict(S)
+    summ["EdnsData::new"] = lambda ex, c: Adt("EdnsData", None, [Seq([])])
+    summ["<EdnsData as Default>::default"] = lambda ex, c: Adt("EdnsData", None, [Seq([])])
+    ex = Exec(prog, summ, enums, max_unroll=6)
+
+    def run(e):
+        qnames = structs["DNSPkt"][0]
+        qvals = {n: Opaque("unused") for n in qnames}
+        qvals["edns_do"] = Bool(z3.Bool("client_do"))
+        qvals["question"] = build(structs, "Question", qdomain=Adt("Domain", None, [BV(z3.BitVec("client_qname", 32))]),
+                                  qclass=Adt("Class", None, [BV(z3.BitVec("client_qclass", 16))]), qtype=Adt("Type", None, [BV(z3.BitVec("client_qtype", 16))]))
+        query = Adt("DNSPkt", None, [qvals[n] for n in qnames], list(qnames))
+        e.env["query"] = query
+        e.env["id"] = z3.BitVec("chosen_id", 16)
+        return e.call_fn(fns[0], [BV(e.env["id"]), Ref(Cell(query))])
+    paths = ex.explore(run)
+    failed = []
+    for outcome, val, pc, env in paths:
+        if outcome == "panic":
+            claims = [("building the upstream query never panics: " + str(val), z3.BoolVal(False))]
+        else:
+            q = env["query"]
+            qq, oq = field(structs, q, "question"), field(structs, val, "question")
+            claims = [
+                ("the upstream query carries the client's question (name, type, class)",
+                 z3.And(field(structs, oq, "qdomain").fields[0].t == field(structs, qq, "qdomain").fields[0].t,
+                        field(structs, oq, "qtype").fields[0].t == field(structs, qq, "qtype").fields[0].t,
+                        field(structs, oq, "qclass").fields[0].t == field(structs, qq, "qclass").fields[0].t)),
+                ("the upstream query is sent under the freshly chosen id", field(structs, val, "qid").t == env["id"]),
+                ("the upstream query is a standard recursive query: QR clear, opcode QUERY, RD set, TC clear, no records",
+                 z3.And(z3.Not(field(structs, val, "qr").t), field(structs, val, "opcode").fields[0].t == 0, field(structs, val, "rd").t, z3.Not(field(structs, val, "tc").t),
+                        z3.BoolVal(len(field(structs, val, "answer").items) == 0 and len(field(structs, val, "nameserver").items) == 0 and len(field(structs, val, "additional").items) == 0))),
+                ("the DNSSEC-OK bit of the client is passed on", field(structs, val, "edns_do").t == field(structs, q, "edns_do").t),
+            ]
+        for name, f in claims:
+            m = check(ex, pc, f, name)
+            if m is not None:
+                failed.append(dict(check="", description=name, location="dns/outquery.rs create_outquery", kind="violation", counterexample=dict(outquery=True, note="see claim")))
+    return failed, ex, len(paths), {}
+
+
+def accept_reply_obligation(prog, enums, structs):
+    """which upstream reply is used (dns/outquery.rs handle_query_internal, lifted): a UDP reply only if it carries the query's id and
+    is not truncated, otherwise the exchange is repeated over TCP; TCP clients are served over TCP"""
+    fns = [f for f in prog.find("lifted_outquery_accept_reply", 4)]
+    if len(fns) != 1:
+        raise Unsupported("lifted_outquery_accept_reply not found in the MIR dump")
+    summ = dict(S)
+
+    def mk_reply(tag):
+        names = structs["DNSPkt"][0]
+        vals = {n: Opaque("unused") for n in names}
+        vals["qid"] = BV(z3.BitVec(tag + "_qid", 16))
+        vals["tc"] = Bool(z3.Bool(tag + "_tc"))
+        vals["rcode"] = Adt("RCode", None, [BV(z3.BitVec(tag + "_rcode", 16))])
+        return Adt("DNSPkt", None, [vals[n] for n in names], list(names))
+
+    def udp_shim(ex, c):
+        ex.env["udp_calls"] = ex.env.get("udp_calls", 0) + 1
+        return Adt("Result", "Ok", [ex.env["udp_reply"]])
+
+    def tcp_shim(ex, c):
+        ex.env["tcp_calls"] = ex.env.get("tcp_calls", 0) + 1
+        return Adt("Result", "Ok", [ex.env["tcp_reply"]])
+    summ["udp_shim"] = udp_shim
+    summ["tcp_shim"] = tcp_shim
+    ex = Exec(prog, summ, enums, max_unroll=6)
+
+    def run(e):
+        e.env["udp_reply"], e.env["tcp_reply"] = mk_reply("udp"), mk_reply("tcp")
+        e.env["id"] = z3.BitVec("query_id", 16)
+        proto = ["Udp", "Tcp"][e.choose([None, None])]
+        e.env["proto"] = proto
+        msg = Adt("ProtoShim", None, [Adt("Protocol", proto, [])], ["protocol"])
+        names = structs["DNSPkt"][0]
+        oq = Adt("DNSPkt", None, [Opaque("unused") for _ in names], list(names))
+        return e.call_fn(fns[0], [Ref(Cell(msg)), Opaque("SocketAddr"), BV(e.env["id"]), oq])
+    paths = ex.explore(run)
+    failed, kinds = [], {}
+    for outcome, val, pc, env in paths:
+        if outcome == "panic":
+            claims = [("choosing the upstream reply never panics: " + str(val), z3.BoolVal(False))]
+        elif val.variant != "Ok":
+            claims = [("both exchanges succeeded, so a reply is produced", z3.BoolVal(False))]
+        else:
+            got = val.fields[0]
+            udp, tcp, qid = env["udp_reply"], env["tcp_reply"], env["id"]
+            u_calls, t_calls = env.get("udp_calls", 0), env.get("tcp_calls", 0)
+            is_udp = got is udp
+            is_tcp = got is tcp
+            k = "%s/%s" % (env["proto"], "udp reply" if is_udp else "tcp reply" if is_tcp else "other")
+            kinds[k] = kinds.get(k, 0) + 1
+            u_qid, u_tc = field(structs, udp, "qid").t, field(structs, udp, "tc").t
+            claims = [("the reply used is one of the two upstream replies", z3.BoolVal(is_udp or is_tcp))]
+            if env["proto"] == "Udp":
+                claims.append(("a UDP reply is used only if it carries the id of the query and is not truncated", z3.BoolVal(not is_udp) if not is_udp else z3.And(u_qid == qid, z3.Not(u_tc))))
+                claims.append(("an id-mismatched or truncated UDP reply is discarded and the query repeated once over TCP",
+                               z3.BoolVal(u_calls == 1) if is_udp else z3.And(z3.BoolVal(is_tcp and u_calls == 1 and t_calls == 1), z3.Or(u_qid != qid, u_tc))))
+                claims.append(("a matching, complete UDP reply is used without a TCP exchange", z3.Implies(z3.And(u_qid == qid, z3.Not(u_tc)), z3.BoolVal(is_udp and t_calls == 0))))
+            else:
+                claims.append(("a query that arrived over TCP is resolved over TCP only", z3.BoolVal(is_tcp and u_calls == 0 and t_calls == 1)))
+        for name, f in claims:
+            m = check(ex, pc, f, name)
+            if m is not None:
+                failed.append(dict(check="", description=name, location="dns/outquery.rs handle_query_internal (lifted)", kind="violation",
+                                   counterexample=dict(outquery=True, protocol=env.get("proto"), query_id=m.eval(env["id"], model_completion=True).as_long(),
+                                                       udp_reply_id=m.eval(field(structs, env["udp_reply"], "qid").t, model_completion=True).as_long(),
+                                                       udp_reply_tc=bool(z3.is_true(m.eval(field(structs, env["udp_reply"], "tc").t, model_completion=True))))))
+    return failed, ex, len(paths), kinds
